@@ -629,17 +629,31 @@ fn run_parallel(par: &Params, units: &[Unit], tmp: &PathBuf) -> Agg {
                     match parsed {
                         Some(v) => total.lock().unwrap().merge_json(&v),
                         None => {
-                            // the worker died inside this unit (e.g. memory corrupted by the code under test)
+                            // the worker died inside this unit
                             let status = child.wait().ok();
                             let at = std::fs::read_to_string(tmp.join(format!("cur-{k}"))).unwrap_or_default();
                             let u = &units[i];
-                            total.lock().unwrap().add_vio(
-                                format!("{}:crash:{}:{}", u.family, u.layer, u.cfg_name()),
-                                0,
-                                format!("a worker process died ({status:?}) while running {}", at.trim()),
-                                json!({"family": u.family, "layer": u.layer, "transport": u.tr.name(), "driver": rt::drv_name(u.drv), "depth": u.depth, "at": at.trim()}),
-                                1,
-                            );
+                            let machinery = status.and_then(|s| s.code()) == Some(2);
+                            if machinery {
+                                // its own machinery error (message on stderr), e.g. a set-up step that
+                                // failed on a starved machine: tolerated a few times, then fatal
+                                let mut t = total.lock().unwrap();
+                                t.count("worker-machinery-errors", 1);
+                                t.capped = true;
+                                let n = t.counters.get("worker-machinery-errors").copied().unwrap_or(0);
+                                drop(t);
+                                if n > 3 {
+                                    vcore::machinery_error(&format!("worker processes keep failing in set-up (last at {})", at.trim()));
+                                }
+                            } else {
+                                total.lock().unwrap().add_vio(
+                                    format!("{}:crash:{}:{}", u.family, u.layer, u.cfg_name()),
+                                    0,
+                                    format!("a worker process died ({status:?}) while running {}", at.trim()),
+                                    json!({"family": u.family, "layer": u.layer, "transport": u.tr.name(), "driver": rt::drv_name(u.drv), "depth": u.depth, "at": at.trim()}),
+                                    1,
+                                );
+                            }
                             respawns += 1;
                             if respawns > 8 {
                                 total.lock().unwrap().capped = true;
@@ -822,7 +836,7 @@ fn finish(report: Report, agg: Agg, full: bool) -> ! {
         report.sample(6, move || s);
     }
     if agg.capped {
-        report.cap_hit("wall-clock cap reached (or a worker kept crashing) before the enumeration finished; the remaining sequences were not run");
+        report.cap_hit("wall-clock cap reached, or a worker process failed in set-up (counter worker-machinery-errors: the rest of its work unit was not run), before the enumeration finished");
     }
     if agg.nondet {
         report.cap_hit("the set of enabled steps differed between two runs of the same choice prefix (counter nondeterministic-enabledness); the siblings of those points were skipped");
@@ -830,6 +844,17 @@ fn finish(report: Report, agg: Agg, full: bool) -> ! {
     for (key, (_, what, replay, n)) in agg.vio {
         report.count(&format!("violation-occurrences:{key}"), n);
         report.violation(Violation { key, what, replay });
+    }
+    for a in [
+        "kernel: Linux loopback TCP / Unix / UDP sockets deliver in order and lose nothing while the receive buffers have room (the harness keeps every sequence far below them); the peer ends are raw non-blocking sockets operated by the harness thread",
+        "a runtime serves up to 40 consecutive executions of one worker process (creating and closing io_uring instances is serialised machine-wide at a few hundred per second, which would cap the whole run at ~10^4 executions); every execution gets fresh sockets, everything in flight is dropped and reaped at its end, and every finding is confirmed by re-running its choice list on a fresh runtime with three times the hang limit (unconfirmed ones are listed under flaky_observations and are not violations)",
+        "harvest = mark the runtime notified, poll_with(Some(ZERO)), run(): the notification makes the zero-timeout poll non-sleeping (io_uring_enter with min_complete 0); a completion the harness itself enabled is awaited with bounded retries (1.5 s), expiry is reported as a hang only if the confirmation run reproduces it",
+        "TCP: acknowledgements and window updates are real-time kernel behaviour (delayed-ACK timer), so the raw peer reads eagerly after every compio send and TCP_NODELAY/TCP_QUICKACK are set on both ends; hence no send stays pending across steps on TCP, back-pressure across steps is explored on the Unix transport only",
+        "stream-A streams are made with from_std() around a connected std socket, except the 'duplex' layer (TcpStream::connect / UnixStream::connect_addr); SO_SNDBUF of the compio end is minimised, receive buffers keep their defaults; Unix compio ends have SO_PASSCRED set (every ancillary read sees one SCM_CREDENTIALS message)",
+        "buffers handed to compio are a harness type implementing IoBuf/IoBufMut/SetLen over a guarded heap block (pattern in every byte, guard bytes after the capacity, set_len recorded); Vec<u8>-specific code paths of compio-buf are not exercised here (C10/C11 do that)",
+        "built with both driver features (io-uring + polling, compio's 'fusion' configuration); the polling driver is selected at run time with ProactorBuilder::driver_type",
+    ] {
+        report.assume(a);
     }
     report.rule("every sequence of enabled harness steps up to the stated depth over the stated alphabet, for each (driver, transport, layer), each run on a fresh runtime and fresh sockets; distinct_nontrivial = distinct (configuration, operation class, result class) observations");
     report.finish()
